@@ -4,6 +4,7 @@ From VQ Require Import Model.Inventory.
 From VQ.Gen Require Import inv_rfsq.
 Import ListNotations.
 Open Scope string_scope.
-Lemma pin_inv_rfsq : inv_rfsq =
+Definition pinned_inv_rfsq : list (string * kind * bool) :=
   [("scales", Buffer, false)].
+Lemma pin_inv_rfsq : inv_rfsq = pinned_inv_rfsq.
 Proof. reflexivity. Qed.
